@@ -20,7 +20,7 @@ type FuncResult struct {
 }
 
 func newExec(p *Program, fn *ssa.Function, c *Contract, prop string) *Exec {
-	x := &Exec{prog: p, fn: fn, c: c, prop: prop, decls: newDecls(), strLits: map[string]Term{}, classes: map[string]classInfo{}, closures: map[string]Clo{}, own: map[string]string{}, stores: map[string]storeInfo{}, freshRefs: map[string]bool{}, recFuncs: map[string]*recFunc{}, loops: map[*ssa.Function]*loopInfo{}, ordinals: map[string]int{}, assumptions: map[string]bool{}, maxPaths: 4096}
+	x := &Exec{prog: p, fn: fn, c: c, prop: prop, decls: newDecls(), strLits: map[string]Term{}, classes: map[string]classInfo{}, closures: map[string]Clo{}, own: map[string]string{}, stores: map[string]storeInfo{}, freshRefs: map[string]bool{}, boundOf: map[string]int{}, alts: map[string][]Term{}, recFuncs: map[string]*recFunc{}, loops: map[*ssa.Function]*loopInfo{}, ordinals: map[string]int{}, assumptions: map[string]bool{}, maxPaths: 4096}
 	x.bv = c.Ints == "bv64"
 	return x
 }
@@ -197,7 +197,7 @@ func (x *Exec) atReturn(fr *Frame, st *State, rv []Val) {
 	}
 	x.checkPropagation(st, rv, false)
 	// cover: this return is reachable (used for vacuity reporting only)
-	if x.retCount <= 64 {
+	if x.retCount <= 12 {
 		x.obligeX(st, "cover", fmt.Sprintf("cover-return#%d", x.retCount), allProps(c, x.prop), tTrue, "return path reachable: "+strings.Join(st.trace, " "), "", false, true)
 	}
 }
